@@ -760,6 +760,13 @@ func (s *Service) handleLoad(w http.ResponseWriter, r *http.Request, qp QueryPar
 		er := executeRequestFromStrings(queries, qp.Timings(), false)
 		er.Request.RollbackOnError = true
 
+		// As with every other write path, non-deterministic functions must be replaced
+		// by their values before the statements are replicated.
+		if err := sql.Process(er.Request.Statements, !qp.NoRewriteRandom(), !qp.NoRewriteTime()); err != nil {
+			http.Error(w, fmt.Sprintf("SQL rewrite: %s", err.Error()), http.StatusInternalServerError)
+			return
+		}
+
 		response, _, addr, resultsErr := s.proxy.Execute(r.Context(), er, makeCredentials(r),
 			qp.Timeout(defaultTimeout), qp.Retries(0), qp.Redirect())
 		if resultsErr != nil {
